@@ -60,7 +60,7 @@ def gen_case(rng, i):
     case = {"flavour": flavour, "arrivals": arr}
     if not two:
         case.update({"kind": "tb", "rate": rate, "bucket": B,
-                     "peak": rng.choice([None, None, rate * 4, rate * 2, rate * 8])})
+                     "peak": rng.choice([None, None, rate * 4, rate * 2, rate * 8, rate, rate / 2])})
     else:
         pir = rng.choice([None, rate * 2, rate * 4])
         case.update({"kind": "trtb", "cir": rate, "cbs": B, "pir": pir,
